@@ -314,7 +314,9 @@ def heap_variants(R, E, F, rule, cfg):
                 R.fail(rule, [fn['path'], 'capacity'], 'capacity must return the stored limit', None)
         fn = fn_of(adt, 'can_push')
         for path in E.run(fn['path']):
-            c = [e for e in path.events if e['k'] == 'call' and e['name'] == 'len']
+            # (the buffer's own len() / capacity() getters may be used: they are inlined, the VecDeque call is what counts)
+            c = [e for e in path.events if e['k'] == 'call' and e['name'] == 'len' and e.get('ret') is not None
+                 and e.get('mode') != 'inline']
             if c and says_pred(E, path, ('bin', 'Ne', c[0]['ret'], S(lim))):
                 R.ok(rule, '%s|len() != limit' % fn['path'])
             else:
